@@ -22,7 +22,7 @@ claimed = {
  'C04': "one message from an arbitrary pre-state: MsgDeposit / MsgWithdraw queue a request whose recorded coins are exactly what entered the global escrow (pool-coin supply unchanged), Farm / Unfarm move the module account's pool-coin balance by exactly the change of the farmer's recorded (queued + active) amount and never release more than recorded. Not covered: execution and refund of requests, pair escrows of orders (C07 covers order settlement), pool disabling, pool creation",
  'C05': "x/liquidity/amm: one individual fill (FillOrder) from any order state, a buy and a sell filled together (base conserved, quote dust in [0,1]), pro-rata distribution with remainder pass over 2 (quick) / 3 (thorough) orders of one tick on a price grid with symbolic amounts; known finding D21 (sell side can take less than distributed). Not covered: the tick loops of Match / FindMatchableAmountAtSinglePrice, pool order generation, keeper/swap.go application",
  'C08': "books mode, one message from an arbitrary pre-state: Draw (LTV gate sees collateral, principal + interest + new loan and the pair's LTV / e-mode LTV and must agree; pool holds the coins; published borrowed moves with the principal), partial Repay, partial Withdraw (never beyond AvailableToBorrow), Deposit; gate lemma on the real valuation arithmetic (decimal grid). Not covered: Lend, Borrow, BorrowAlternate, DepositBorrow, CloseLend, CloseBorrow, liquidation hand-over, the sums over all positions (only the per-step identity), interest accrual writes (C18 covers the formulas)",
- 'C09': "safety: one liquidation decision of the second generation for an arbitrary vault / borrow from an arbitrary pre-state (seized only on the unsafe side of the applicable ratio / threshold, exactly the recorded collateral moves, one locked vault); liveness: sweep window functions of both generations (valid sub-range, never wider than the batch, progress), the real second-generation vault and borrow sweeps (window visited completely, continues after a failing item, own next offset stored). Not covered: first-generation (x/liquidation) decisions, auction start",
+ 'C09': "safety: one liquidation decision of the second generation for an arbitrary vault / borrow from an arbitrary pre-state (seized only on the unsafe side of the applicable ratio / threshold, ratio taken over collateral vs principal + interest + closing fee, an unsafe vault is seized or the step fails, exactly the recorded collateral moves, one locked vault); liveness: sweep window functions of both generations (valid sub-range, never wider than the batch, progress), the real second-generation vault and borrow sweeps (window visited completely, continues after a failing item, own next offset stored). Not covered: first-generation (x/liquidation) decisions, auction start",
  'C16': "map-iteration-order independence (2-safety by self-composition: insertion order vs reverse order, all orders for two entries) of amm.DistributeOrderAmountToOrders; the other map ranges named in the property and process-level replay are not covered",
  'C10': "second-generation Dutch auction: one bid from an arbitrary running auction (closed world; pays <= target, receives <= collateral, partial-bid bookkeeping, closing bid empties the auction), conversion lemma (posted price + one unit, monotone), price function falling, restart starts a fresh price line",
  'C11': "limit bids (deposit/cancel/withdraw with arbitrary denomination and amount in the message) and one second-generation English bid from an arbitrary auction state",
@@ -30,10 +30,10 @@ claimed = {
  'C13': "locker books per message, collector net-fee booking for every fee-generating vault message and for the second-generation Dutch close",
  'C14': "vault and locker messages x circuit breaker / emergency shutdown / cool-off; second-generation vault liquidation refuses under shutdown or breaker; first-generation surplus / debt auction activators start nothing under breaker or shutdown. Not covered: lend, second-generation auctions, liquidity",
  'C15': "utils.ApplyFuncIfNoError all-or-nothing with a symbolic fault index; the second-generation vault and borrow sweeps (never panic for any counter / offset / batch size, a failing item neither stops the sweep nor pins it); market.BeginBlocker never panics for any oracle result / asset list. Not covered: the other modules' hooks",
- 'C20': "collector module: export + import into an empty store preserves every table written by the module's setters (closed world)",
+ 'C20': "collector and locker modules: export + import into an empty store preserves every table written by the module's setters and (locker) the id counter (closed world). Not covered: the other modules, continuation workloads",
  'C17': "one step of the price ring from any state satisfying the ring invariant, window sizes 1..6 (12 thorough): no panic, invariant, exact mean, activation, consumers fail when inactive",
  'C18': "lend reward / borrow interest / stable interest: non-negative, zero over zero time, monotone relative to a grid (sandwich) in time, principal and rate",
- 'C19': "per-epoch split (allocations sum to the deposit, differ by at most one unit, epochs 1..8, 16 thorough); one epoch trigger of an external-reward gauge from any consistent gauge state (asks for exactly this epoch's allocation, only while active / started / epochs left, count and cumulative amount move with what was distributed); one epoch's distribution never reports or pays more than it was given. Not covered: the farmers' float shares, swap-fee gauges, external reward programs, custody of the rewards account across modules",
+ 'C19': "per-epoch split (allocations sum to the deposit, differ by at most one unit, epochs 1..8, 16 thorough); one epoch trigger of an external-reward gauge from any consistent gauge state (asks for exactly this epoch's allocation, only while active / started / epochs left, count and cumulative amount move with what was distributed); one epoch's distribution never reports or pays more than it was given; a master-pool farmer's child-pool value is the sum over his child pools. Not covered: the float share arithmetic, swap-fee gauges, external reward programs, custody of the rewards account across modules",
 }
 checks = []
 for p in props:
